@@ -81,6 +81,8 @@ pub fn case(ctx: &mut Ctx, idx: u64) {
                     osu::Profile::Ties,
                     osu::Profile::Gaps,
                     osu::Profile::Dense,
+                    osu::Profile::Late,
+                    osu::Profile::Late,
                 ]),
                 ..Mix::default()
             },
